@@ -1,5 +1,5 @@
 (* C10 — executable model of /repo/crypto/src/merkle/{mod.rs,proofs.rs} (repaired tree, see
-   /verif/fixes/merkle-verify-depth-guards.diff).  No proofs here (Proofs/Merkle*.v).
+   /verif/fixes/c10-merkle-opening-checks.diff).  No proofs here (Proofs/Merkle*.v).
 
    Conventions
    * usize values are Z; every checked usize operation of the debug profile whose operands are
@@ -348,25 +348,34 @@ Fixpoint gscan (pn : list (list D)) (I : list Z) (i : Z) (v : bmap D) (ptrs : li
   end.
 
 Fixpoint glevels (k : nat) (pn : list (list D)) (I : list Z) (v : bmap D) (ptrs : list Z) (ptm : bmap D)
-  : res (bmap D * bmap D) :=
+  : res (bmap D * list Z * bmap D) :=
   match k with
-  | O => Ok (v, ptm)
+  | O => Ok (v, ptrs, ptm)
   | S k' => '(v1, ptrs1, ptm1, next) <- gscan pn I 0 v ptrs ptm ;; glevels k' pn next v1 ptrs1 ptm1
   end.
 
+(* all_nodes_consumed: proof_pointers.iter().zip(nodes).all(|(p, n)| p == n.len()) *)
+Fixpoint all_consumed (ptrs : list Z) (nodes : list (list D)) : bool :=
+  match ptrs, nodes with
+  | p :: rp, nd :: rn => (p =? zlen nd) && all_consumed rp rn
+  | _, _ => true
+  end.
+
 (* common part of get_root and into_paths after the index-count checks; [ptm0] builds the initial
-   partial tree once the indexes are validated *)
+   partial tree once the indexes are validated; ends with the (repaired) all_nodes_consumed check *)
 Definition gcore (p : bproof) (indexes : list Z) (ptm0 : bmap D) : res (bmap D * bmap D) :=
   imap <- map_indexes indexes (bp_depth p) ;;
   let norm := normalize_indexes indexes in
   if negb (zlen norm =? zlen (bp_nodes p)) then Err InvalidProof else
   let offset := 2 ^ bp_depth p in
   '(v, ptrs, ptm, next) <- gfirst p imap offset norm 0 [] ptm0 ;;
-  glevels (Z.to_nat (bp_depth p - 1)) (bp_nodes p) next v ptrs ptm.
+  '(v', ptrs', ptm') <- glevels (Z.to_nat (bp_depth p - 1)) (bp_nodes p) next v ptrs ptm ;;
+  if negb (all_consumed ptrs' (bp_nodes p)) then Err InvalidProof else Ok (v', ptm').
 
 Definition get_root (p : bproof) (indexes : list Z) : res D :=
   match indexes with [] => Err TooFewLeafIndexes | _ =>
   if max_paths <? zlen indexes then Err (TooManyLeafIndexes max_paths (zlen indexes)) else
+  if negb (zlen indexes =? zlen (bp_leaves p)) then Err InvalidProof else
   '(v, _) <- gcore p indexes [] ;;
   match bt_get 1 v with Some r => Ok r | None => Err InvalidProof end
   end.
@@ -422,29 +431,40 @@ Fixpoint fp_map (depth : Z) (indexes : list Z) (paths : list (list D)) (m : bmap
   | _, _ => Ok m
   end.
 
-(* first while loop over the sorted (index, path) entries; [i] is the position, [leaves] the output leaves *)
-Fixpoint fp_first (es : list (Z * list D)) (i : Z) (leaves : list D) (pm : bmap (list D))
+Fixpoint fp_pos (indexes : list Z) (paths : list (list D)) (i : Z) (m : bmap Z) : bmap Z :=
+  match indexes, paths with
+  | index :: ri, _ :: rp => fp_pos ri rp (i + 1) (bt_insert index i m)
+  | _, _ => m
+  end.
+
+(* leaves[position_map[&index]] = x *)
+Definition fp_put (posm : bmap Z) (leaves : list D) (index : Z) (x : D) : res (list D) :=
+  match bt_get index posm with None => Panic | Some pos => upd leaves pos x end.
+
+(* first while loop over the sorted (index, path) entries; [leaves] are the output leaves, written at
+   the position of the index in the caller's list (repaired; previously at the sorted position) *)
+Fixpoint fp_first (posm : bmap Z) (es : list (Z * list D)) (leaves : list D) (pm : bmap (list D))
   : res (list D * list (list D) * bmap (list D)) :=
   match es with
   | [] => Ok (leaves, [], pm)
   | (ia, pa) :: rest =>
     l0 <- idx pa 0 ;;
-    leaves1 <- upd leaves i l0 ;;
+    leaves1 <- fp_put posm leaves ia l0 ;;
     match rest with
     | (ib, pb) :: rest' =>
       sibs <- are_siblings ia ib ;;
       if sibs then
         l1 <- idx pa 1 ;;
-        leaves2 <- upd leaves1 (i + 1) l1 ;;
-        '(leavesF, nodes, pmF) <- fp_first rest' (i + 2) leaves2 (bt_insert (Z.shiftr ib 1) pb pm) ;;
+        leaves2 <- fp_put posm leaves1 ib l1 ;;
+        '(leavesF, nodes, pmF) <- fp_first posm rest' leaves2 (bt_insert (Z.shiftr ib 1) pb pm) ;;
         Ok (leavesF, [] :: nodes, pmF)
       else
         l1 <- idx pa 1 ;;
-        '(leavesF, nodes, pmF) <- fp_first rest (i + 1) leaves1 (bt_insert (Z.shiftr ia 1) pa pm) ;;
+        '(leavesF, nodes, pmF) <- fp_first posm rest leaves1 (bt_insert (Z.shiftr ia 1) pa pm) ;;
         Ok (leavesF, [l1] :: nodes, pmF)
     | [] =>
       l1 <- idx pa 1 ;;
-      '(leavesF, nodes, pmF) <- fp_first rest (i + 1) leaves1 (bt_insert (Z.shiftr ia 1) pa pm) ;;
+      '(leavesF, nodes, pmF) <- fp_first posm rest leaves1 (bt_insert (Z.shiftr ia 1) pa pm) ;;
       Ok (leavesF, [l1] :: nodes, pmF)
     end
   end.
@@ -484,8 +504,9 @@ Definition from_paths (paths : list (list D)) (indexes : list Z) : res bproof :=
     if negb (zlen paths =? zlen indexes) then Panic else
     let depth := zlen path0 in
     pm <- fp_map depth indexes paths [] ;;
-    let leaves0 := repeat d0 (length pm) in
-    '(leaves, nodes0, pm1) <- fp_first pm 0 leaves0 [] ;;
+    let posm := fp_pos indexes paths 0 [] in
+    let leaves0 := repeat d0 (length paths) in
+    '(leaves, nodes0, pm1) <- fp_first posm pm leaves0 [] ;;
     nodes <- fp_levels (Z.to_nat (depth - 2)) 2 pm1 nodes0 ;;
     if depth <? 1 then Panic (* depth - 1 *) else
     Ok {| bp_leaves := leaves; bp_nodes := nodes; bp_depth := (depth - 1) mod 256 |}
